@@ -31,6 +31,12 @@ type proxy struct {
 	closed            bool
 	blocked           bool // refuse new sessions (the server is "away")
 	log               []string
+	// rewrite, when set, may replace (or, returning nil, drop) a message before it is forwarded
+	rewrite func(session int, toClient bool, raw json.RawMessage) json.RawMessage
+	// stalled: messages are read but held back (the peer is silent) until unstalled or cut
+	stalled                      bool
+	epoch, cutEpoch, silentEpoch int // sessions accepted in an epoch <= cutEpoch are dead, <= silentEpoch silent for good
+	unstall                      *sync.Cond
 }
 
 func newProxy(target string) (*proxy, error) {
@@ -39,6 +45,8 @@ func newProxy(target string) (*proxy, error) {
 		return nil, err
 	}
 	p := &proxy{dir: dir, sock: filepath.Join(dir, "p.sock"), target: target}
+	p.unstall = sync.NewCond(&p.mu)
+	p.cutEpoch, p.silentEpoch = -1, -1
 	ln, err := net.Listen("unix", p.sock)
 	if err != nil {
 		return nil, err
@@ -56,6 +64,7 @@ func (p *proxy) Close() {
 	for _, c := range p.conns {
 		c.Close()
 	}
+	p.unstall.Broadcast()
 	p.mu.Unlock()
 	p.ln.Close()
 	os.RemoveAll(p.dir)
@@ -68,6 +77,23 @@ func (p *proxy) setPlans(plans ...cutPlan) {
 	for i := 0; i < p.sessions && i < len(p.plans); i++ {
 		p.plans[i] = cutPlan{After: -1}
 	}
+	p.mu.Unlock()
+}
+
+// stall makes the proxy silent in both directions without closing anything
+func (p *proxy) stall(b bool) {
+	p.mu.Lock()
+	p.stalled = b
+	p.unstall.Broadcast()
+	p.mu.Unlock()
+}
+
+// silence makes every session open now silent for good (messages are swallowed in both directions, the
+// connections stay open); sessions accepted later work normally
+func (p *proxy) silence() {
+	p.mu.Lock()
+	p.silentEpoch = p.epoch
+	p.epoch++
 	p.mu.Unlock()
 }
 
@@ -84,6 +110,9 @@ func (p *proxy) cutNow() {
 		c.Close()
 	}
 	p.conns = nil
+	p.cutEpoch = p.epoch
+	p.epoch++
+	p.unstall.Broadcast()
 	p.mu.Unlock()
 }
 
@@ -135,17 +164,48 @@ func (p *proxy) accept() {
 			continue
 		}
 		p.conns = append(p.conns, c, s)
+		myGen := p.epoch
 		p.mu.Unlock()
 		var once sync.Once
-		cut := func() { once.Do(func() { c.Close(); s.Close() }) }
+		dead := false
+		cut := func() {
+			once.Do(func() {
+				c.Close()
+				s.Close()
+				p.mu.Lock()
+				dead = true
+				p.unstall.Broadcast()
+				p.mu.Unlock()
+			})
+		}
 		var cnt sync.Mutex
-		pump := func(from, to net.Conn) {
+		pump := func(from, to net.Conn, toClient bool) {
 			dec := json.NewDecoder(from)
 			for {
 				var raw json.RawMessage
 				if err := dec.Decode(&raw); err != nil {
 					cut()
 					return
+				}
+				p.mu.Lock()
+				for p.stalled && !dead && !p.closed && myGen > p.cutEpoch {
+					p.unstall.Wait()
+				}
+				rw := p.rewrite
+				gone := dead || p.closed || myGen <= p.cutEpoch
+				silent := myGen <= p.silentEpoch
+				p.mu.Unlock()
+				if gone {
+					cut()
+					return
+				}
+				if silent {
+					continue // the peer has gone silent: nothing gets through, nothing is closed
+				}
+				if rw != nil {
+					if raw = rw(id, toClient, raw); raw == nil {
+						continue
+					}
 				}
 				cnt.Lock()
 				p.mu.Lock()
@@ -170,7 +230,7 @@ func (p *proxy) accept() {
 				}
 			}
 		}
-		go pump(c, s)
-		go pump(s, c)
+		go pump(c, s, false)
+		go pump(s, c, true)
 	}
 }
